@@ -39,7 +39,8 @@ enum Op {
     ConcatAA,    // a.concat(&a)
 }
 
-const MENU_QUICK: [Op; 9] = [
+const MENU_QUICK: [Op; 10] = [
+    Op::RustEqAB,
     Op::PushB,
     Op::GetA0,
     Op::ScriptGetA0,
@@ -374,7 +375,7 @@ fn list_addr(l: &List<u64>) -> usize {
 }
 
 /// Initial contents. Config 0: `a` pre-filled to its capacity (the next push
-/// relocates), `b` holds one element. Config 1: `a` holds one element, `b` is
+/// relocates), `b` holds one element. Config 1: `a` holds the element 7, `b` is
 /// EMPTY (code paths that special-case an empty operand).
 #[derive(Clone, Copy, Debug, PartialEq, Eq)]
 struct Init {
@@ -389,7 +390,9 @@ fn init_lists(init: Init) -> (List<u64>, List<u64>, Model) {
     let (a, b) = if x_low == init.a_low { (x, y) } else { (y, x) };
     let (va, vb): (Vec<u64>, Vec<u64>) = match init.config {
         0 => (vec![1, 2, 3, 4], vec![5]),
-        _ => (vec![1], vec![]),
+        // `b.push(7)` after `a.push(9)` passes through no state in which the
+        // lists are equal, but a torn comparison (a before, b after) sees [7] == [7]
+        _ => (vec![7], vec![]),
     };
     for x in &va {
         a.push(*x);
@@ -599,7 +602,7 @@ impl Check for C16 {
                 st.points += s1.points;
                 n_out += n1;
                 for mut f in f1 {
-                    f.detail = json!({"a_has_lower_address": init.a_low, "initial": if init.config == 0 { "a=[1,2,3,4] b=[5]" } else { "a=[1] b=[]" }, "detail": f.detail});
+                    f.detail = json!({"a_has_lower_address": init.a_low, "initial": if init.config == 0 { "a=[1,2,3,4] b=[5]" } else { "a=[7] b=[]" }, "detail": f.detail});
                     failures.push(f);
                 }
             }
@@ -679,7 +682,7 @@ impl Check for C16 {
                 "shapes": sh.iter().map(|s| json!({"threads": s.threads, "ops_per_thread": s.ops,
                     "menu": menu(cfg.tier, s).iter().map(|o| o.name()).collect::<Vec<_>>(),
                     "preemption_bound": if bound(cfg.tier, s) == usize::MAX { json!("unbounded") } else { json!(bound(cfg.tier, s)) }})).collect::<Vec<_>>(),
-                "initial": [{"a": [1,2,3,4], "a_capacity": 4, "b": [5]}, {"a": [1], "b": []}],
+                "initial": [{"a": [1,2,3,4], "a_capacity": 4, "b": [5]}, {"a": [7], "b": []}],
             }),
             states_are: "complete schedules explored".into(),
             transitions_are: "schedule points passed".into(),
